@@ -303,6 +303,41 @@ def guard_facts(dom, n):
     return out
 
 
+def short_circuit_facts(root, expr, origin=None):
+    """facts that hold whenever sub-expression `expr` of `root` is evaluated: earlier operands of an enclosing `and` are true,
+    of an enclosing `or` false, the test of an enclosing conditional expression has the polarity of the arm"""
+    out = []
+    chain = []
+    cur = expr
+    while cur is not None and cur is not root:
+        par = getattr(cur, '_parent', None)
+        if par is None:
+            break
+        chain.append((par, cur))
+        cur = par
+    for (par, child) in chain:
+        if isinstance(par, ast.BoolOp):
+            idx = [i for i, v in enumerate(par.values) if v is child]
+            if idx:
+                for v in par.values[:idx[0]]:
+                    out += facts_of(v, isinstance(par.op, ast.And), origin)
+        elif isinstance(par, ast.IfExp):
+            if child is par.body:
+                out += facts_of(par.test, True, origin)
+            elif child is par.orelse:
+                out += facts_of(par.test, False, origin)
+    return out
+
+
+def guard_facts_at(dom, n, expr):
+    """guard_facts of node n plus the short-circuit facts under which `expr` (a sub-expression of n's statement / test) is evaluated"""
+    out = guard_facts(dom, n)
+    root = n.ast if isinstance(n.ast, ast.AST) else None
+    if root is not None and expr is not None:
+        out = out + short_circuit_facts(root, expr)
+    return out
+
+
 def must_pass(starts, goal_pred, through, efilter=None, avoid=(), stop=()):
     """None if every path start -> goal meets a node of `through`;
     otherwise a witness path avoiding `through`."""
